@@ -308,23 +308,69 @@ func (e *netEnv) exchange(dst *net.UDPAddr, pkt, sentinel []byte, isSentinel fun
 			note(fmt.Sprintf("write failed: %v (len %d)", err, len(pkt)))
 		}
 	}
-	if _, err := c.WriteToUDP(sentinel, dst); err != nil {
-		note(fmt.Sprintf("write failed: %v", err))
-	}
 	buf := make([]byte, 65536)
-	deadline := time.Now().Add(readLimit)
-	for {
-		c.SetReadDeadline(deadline)
-		n, _, err := c.ReadFromUDP(buf)
-		if err != nil {
-			return reps, false
+	// the sentinel is sent up to three times: one lost datagram on a loaded machine is not a violation
+	for try := 0; try < 3; try++ {
+		if _, err := c.WriteToUDP(sentinel, dst); err != nil {
+			note(fmt.Sprintf("write failed: %v", err))
 		}
-		b := clone(buf[:n])
-		if isSentinel(b) {
-			return reps, true
+		deadline := time.Now().Add(readLimit / 3)
+		for {
+			c.SetReadDeadline(deadline)
+			n, _, err := c.ReadFromUDP(buf)
+			if err != nil {
+				break
+			}
+			b := clone(buf[:n])
+			if isSentinel(b) {
+				return reps, true
+			}
+			if e.staleSentinel(b) {
+				continue // the answer to an earlier (repeated) sentinel
+			}
+			reps = append(reps, b)
 		}
-		reps = append(reps, b)
 	}
+	return reps, false
+}
+
+// staleSentinel recognises the answer to a sentinel of an earlier step (plain or inside SCION).
+func (e *netEnv) staleSentinel(b []byte) bool {
+	is := func(p []byte) bool {
+		return len(p) >= ntp.PacketLen && binary.BigEndian.Uint32(p[24:]) == sentinelSecs
+	}
+	if is(b) && b[0]&7 == 4 {
+		return true
+	}
+	if pl, _, ok := scionPayload(b); ok && is(pl) {
+		return true
+	}
+	return false
+}
+
+// interleavedSentinel makes two exchanges the way an interleaved-mode client does: the second
+// request's origin time is the receive time the listener reported in its first reply.
+func (e *netEnv) interleavedSentinel(dst *net.UDPAddr) bool {
+	s1 := e.nextSentinel()
+	var r1 []byte
+	if _, ok := e.exchange(dst, nil, s1, func(b []byte) bool {
+		if e.isSentinelReply(b) {
+			r1 = clone(b)
+			return true
+		}
+		return false
+	}); !ok {
+		return false
+	}
+	s2 := e.nextSentinel()
+	copy(s2[24:32], r1[32:40]) // origin  := the listener's receive time
+	copy(s2[32:40], r1[40:48]) // receive := the listener's transmit time (differs from our transmit time)
+	_, ok := e.exchange(dst, nil, s2, func(b []byte) bool {
+		// an interleaved reply carries our receive field as its origin; a basic one our transmit time
+		return len(b) >= ntp.PacketLen && b[0]&7 == 4 &&
+			(string(b[24:32]) == string(s2[32:40]) || e.isSentinelReply(b))
+	})
+	return ok
 }
 
 // ---- srv.ip ----
@@ -350,6 +396,9 @@ func (e *netEnv) runIP(a []val) string {
 	if !lost {
 		req, check := e.ntsSentinel()
 		_, ntsOK = e.exchange(dst, nil, req, check)
+		if ntsOK {
+			ntsOK = e.interleavedSentinel(dst)
+		}
 	}
 	return lib.V("1", lib.L(obs...), lib.Bool(ntsOK))
 }
@@ -366,6 +415,7 @@ type scionSpec struct {
 	e2e              []*slayers.EndToEndOption
 	hbh              bool
 	scmp             int // 0 = UDP, else SCMP type
+	scmpRaw          bool // the payload is everything behind the 4-byte SCMP header
 }
 
 func buildPath(t uint8, raw []byte) (path.Path, error) {
@@ -426,10 +476,11 @@ func buildSCION(h *scionSpec, payload []byte) (b []byte, err error) {
 		sc := &slayers.SCMP{TypeCode: slayers.CreateSCMPTypeCode(slayers.SCMPType(h.scmp), 0)}
 		sc.SetNetworkLayerForChecksum(&scn)
 		layers = append(layers, sc)
-		switch slayers.SCMPType(h.scmp) {
-		case slayers.SCMPTypeEchoRequest:
+		switch t := slayers.SCMPType(h.scmp); {
+		case h.scmpRaw:
+		case t == slayers.SCMPTypeEchoRequest:
 			layers = append(layers, &slayers.SCMPEcho{Identifier: 7, SeqNumber: 9})
-		case slayers.SCMPTypeTracerouteRequest:
+		case t == slayers.SCMPTypeTracerouteRequest:
 			layers = append(layers, &slayers.SCMPTraceroute{Identifier: 7, Sequence: 9})
 		}
 	} else {
@@ -504,6 +555,7 @@ func (e *netEnv) runSCION(a []val) string {
 		}
 	}
 	ss = append(ss, e.scionFinalSentinels()...)
+	ss = append(ss, lib.Bool(e.echoSentinel()))
 	return lib.V("1", lib.L(ss...))
 }
 
@@ -735,7 +787,7 @@ func sentinelLost(kind, outs string) bool {
 
 func runNet1(j job) (string, bool) {
 	switch j.kind {
-	case "srv.ip", "srv.scion", "srv.scionnts", "srv.scionauth", "srv.csptp", "srv.ntske", "srv.kestall", "srv.quic", "srv.quicke", "cli.scionnts", "cli.overlap", "cli.ipopt", "cli.kestall", "srv.scionnodaemon", "cli.ip", "cli.nts", "cli.scion", "cli.csptp":
+	case "srv.ip", "srv.scion", "srv.scionnts", "srv.scionauth", "srv.scmp", "srv.csptp", "srv.ntske", "srv.kestall", "srv.quic", "srv.quicke", "cli.scionnts", "cli.overlap", "cli.ipopt", "cli.kestall", "srv.scionnodaemon", "srv.ip6", "cli.ip6", "cli.ip", "cli.nts", "cli.scion", "cli.csptp":
 	default:
 		return "", false
 	}
@@ -744,12 +796,14 @@ func runNet1(j job) (string, bool) {
 	switch j.kind {
 	case "srv.ip":
 		return e.runIP(a), true
-	case "srv.scion", "srv.scionnts", "srv.scionauth":
+	case "srv.scion", "srv.scionnts", "srv.scionauth", "srv.scmp":
 		return e.runSCION(a), true
 	case "srv.quicke":
 		return e.runQUICKE(a), true
 	case "srv.scionnodaemon":
 		return e.runNoDaemon(a), true
+	case "srv.ip6":
+		return e.runIP6(a), true
 	case "srv.csptp":
 		return e.runCSPTPServer(a), true
 	case "srv.ntske":
